@@ -16,6 +16,7 @@ import OpenHTF.Driver.C18
 import OpenHTF.Driver.C12
 import OpenHTF.Driver.C04
 import OpenHTF.Driver.C14
+import OpenHTF.Driver.C19
 open OpenHTF.Driver
 
 def stripNl (s : String) : String :=
@@ -41,6 +42,7 @@ def dispatch (line : String) : String :=
   | "C12" :: ts => C12.handle ts
   | "C04" :: ts => C04.handle ts
   | "C14" :: ts => C14.handle ts
+  | "C19" :: ts => C19.handle ts
   | "C03" :: ts => C02.handleC03 ts
   | _ => reply false false "unknown-property"
 
